@@ -1,8 +1,23 @@
+import sys
+
 nbsp = chr(160)
 
 def is_number(ch: str):
     "Check if given code is a number"
     return ch.isdecimal()
+
+def to_int(scanner):
+    """
+    Returns integer value of the digits consumed by given scanner.
+    The interpreter refuses to convert very long runs of digits
+    (see `sys.set_int_max_str_digits()`): report them as parse error. One digit
+    of headroom keeps numbering (base + counter) printable
+    """
+    digits = scanner.current()
+    limit = getattr(sys, 'get_int_max_str_digits', lambda: 0)()
+    if limit and len(digits) >= limit:
+        raise scanner.error('Number is too long', scanner.start)
+    return int(digits)
 
 def is_alpha(ch: str):
     "Check if given character code is alpha code (letter through A to Z)"
